@@ -176,7 +176,8 @@ def random_chain_system(rng, ncomp=None, with_alpha=True, norms=False, no_surrog
                                       norm=(rng.choice([None, 'linear(0.5, 1)', 'zscore(1, 2)']) if norms else None))
     for s in spec:
         for o in s['outputs']:
-            variables[o] = Variable(o, domain=(-50.0, 50.0))
+            # coupling variables may carry a (time-stable) normalisation too
+            variables[o] = Variable(o, domain=(-50.0, 50.0), norm=(rng.choice([None, 'linear(0.5, 1)', 'zscore(1, 4)']) if norms else None))
     components = []
     for model, in_names, outs, name_, kw in comps:
         components.append(Component(model, [variables[n] for n in in_names], [variables[o] for o in outs],
@@ -263,3 +264,24 @@ def solve_affine_loop(spec, xvals):
                 f = M[r][col] / M[col][col]
                 M[r] = [a - f * b_ for a, b_ in zip(M[r], M[col])]; rhs[r] -= f * rhs[col]
     return [rhs[i] / M[i][i] for i in range(n)]
+
+
+def field_input_system(rng, name='fld'):
+    """one component with a scalar input and a FIELD-QUANTITY input (SVD-compressed, 2 latent coefficients) -> scalar output.
+    The construction uses its own deterministic data (no global random state)."""
+    from amisc import Component, System, Variable
+    from amisc.compression import SVD
+    grid = np.linspace(-1.0, 1.0, 12)
+    rs = np.random.RandomState(rng.randint(0, 10 ** 6))
+    a = rs.rand(15); b = 1.0 + rs.rand(15)
+    data = a[:, None] * np.sin(grid) + b[:, None] * np.cos(grid)       # (samples, dof)
+    p = Variable('p', compression=SVD(rank=2, data_matrix=data.T, coords=grid))
+    d = Variable('d', distribution='U(0, 1)')
+    amp = Variable('amp', domain=(-20.0, 20.0))
+
+    def model(inputs, p_coords=None):
+        dd = np.atleast_1d(np.asarray(inputs['d'], dtype=float))
+        pf = np.atleast_1d(np.asarray(inputs['p'], dtype=float))
+        return {'amp': dd * np.mean(pf, axis=-1) + 0.5 * dd ** 2}
+    comp = Component(model, [d, p], [amp], name='fq', data_fidelity=(2, 2), vectorized=True)
+    return System(comp, name=name), None
